@@ -674,6 +674,10 @@ class ReceiveDropped(ActorStep):
                                      for j in range(len(st.btoks))] or [True])))
             out.append(Claim('handed-out count as for a live caller', k == z3.If(st.blen == 0, 0, z3.If(st.blen < z3.If(res['mx'] > 1, res['mx'], 1), st.blen, z3.If(res['mx'] > 1, res['mx'], 1)))))
             out.append(Cover('two messages handed to a vanished consumer', k == 2))
+            # C06: the vanished consumer had consumed a wake-up to get here; whatever is still in the backlog must be signalled on
+            notified = any(e[0] == 'notify_one' and e[1] == 'messages_available' for e in res['log'])
+            out.append(Claim('messages left in the backlog are signalled to the other consumers (the wake-up is handed on)',
+                             z3.Implies(f['backlog'].n > 0, z3.BoolVal(notified))))
         if self.variant in ('GetInfo', 'GetStats', 'AcknowledgeMessages'):
             out.append(Claim('backlog unchanged', backlog_is(f['backlog'], st.btoks, st.blen)))
         return out
